@@ -48,7 +48,7 @@ func init() {
 			"request-level reading: a rule accepts a request iff any of its matches does, a match iff all of its path/header/query/method conditions do; a step match with `path` is standalone, one without is combined with the conditions of the original rule; regular expressions are full-string Go regexps on both sides of the comparison",
 			"only the narrowness direction is a verdict (the statement says 'accepts only'); selected requests that no canary rule accepts, repeated header names and more than 8 matches in a generated rule (both rejected by a real API server) are counted as observations, not violations",
 			"Finalise: the weight field of the stable backendRef is owned by the rollout once the route is referenced; user rules are compared modulo that one field",
-			"history independence and all comparisons are on canonical JSON of typed objects (nil == empty), order-sensitive (rule order decides precedence between equal matches); after a match step the comparison is modulo the weight of stable backendRefs (same ownership reading as for Finalise)",
+			"history independence and all comparisons are on canonical JSON of typed objects (nil == empty), order-sensitive (rule order decides precedence between equal matches); after a match step the comparison is modulo the weight of stable backendRefs (same ownership reading as for Finalise) and modulo the weight of a generated rule's single canary backendRef (a copy of the former)",
 			"fixed point (C07 d): the call that first returns true and one further call make zero effective writes (object compared before/after every write call); true within 3 calls; Finalise: a call after the first `modified=true` returns false with zero effective writes",
 		},
 		NumCases:  NumCases,
@@ -222,12 +222,56 @@ func semantic(r *gw.HTTPRoute) string {
 	return js(gen.NF{"outside": json.RawMessage(outsideRules(r)), "rules": r.Spec.Rules})
 }
 
-func semanticModStableWeight(r *gw.HTTPRoute) string {
-	var rules []json.RawMessage
+// ruleForms gives the compared form of every rule; mod: modulo the rollout-owned weight fields.
+func ruleForms(r *gw.HTTPRoute, mod bool) []string {
+	var out []string
 	for i := range r.Spec.Rules {
-		rules = append(rules, json.RawMessage(modStableWeight(r.Spec.Rules[i])))
+		rule := r.Spec.Rules[i]
+		if !mod {
+			out = append(out, js(rule))
+			continue
+		}
+		// a generated rule whose only backend is the canary Service: the provider copies the weight from the
+		// stable backendRef, whose weight field is the rollout's; as a sole backend it receives all or nothing
+		if len(rule.BackendRefs) == 1 && refIsService(&rule.BackendRefs[0], canarySvc) {
+			rule = *rule.DeepCopy()
+			rule.BackendRefs[0].Weight = nil
+		}
+		out = append(out, modStableWeight(rule))
 	}
-	return js(gen.NF{"outside": json.RawMessage(outsideRules(r)), "rules": rules})
+	return out
+}
+
+func rawList(xs []string) []json.RawMessage {
+	var out []json.RawMessage
+	for _, x := range xs {
+		out = append(out, json.RawMessage(x))
+	}
+	return out
+}
+
+// the first rule in which two rule lists differ carries a ref that only looks like the stable / canary Service
+func firstDifferingRuleHasLookalike(a, b []gw.HTTPRouteRule, fa, fb []string) bool {
+	has := func(r *gw.HTTPRouteRule) bool {
+		for i := range r.BackendRefs {
+			ref := &r.BackendRefs[i]
+			if (string(ref.Name) == stableSvc && !refIsService(ref, stableSvc)) || (string(ref.Name) == canarySvc && !refIsService(ref, canarySvc)) {
+				return true
+			}
+		}
+		return false
+	}
+	for i := 0; i < len(a) || i < len(b); i++ {
+		switch {
+		case i >= len(a):
+			return has(&b[i])
+		case i >= len(b):
+			return has(&a[i])
+		case fa[i] != fb[i]:
+			return has(&a[i]) || has(&b[i])
+		}
+	}
+	return false
 }
 
 // ---- running a scenario ---------------------------------------------------------------------------------
@@ -376,18 +420,22 @@ func runScenario(route *gw.HTTPRoute, steps []step, count bool) *core.CaseResult
 		if alive && !diverged && i > 0 {
 			res.Count("history_comparisons", 1)
 			sr := seq.route()
-			a, b := semantic(sr), semantic(fr)
-			if a != b && s.Kind == "match" {
-				// a match step leaves the user's rules alone; the weight of their stable backendRef is the
-				// rollout's once it has been rewritten by an earlier weight step: compare modulo that field
-				a, b = semanticModStableWeight(sr), semanticModStableWeight(fr)
-			}
+			// a match step leaves the user's rules alone; the weight of their stable backendRef is the rollout's
+			// once it has been rewritten by an earlier weight step: after a match step compare modulo that field
+			mod := s.Kind == "match"
+			fa, fb := ruleForms(sr, mod), ruleForms(fr, mod)
+			a := js(gen.NF{"outside": json.RawMessage(outsideRules(sr)), "rules": rawList(fa)})
+			b := js(gen.NF{"outside": json.RawMessage(outsideRules(fr)), "rules": rawList(fb)})
 			if a != b {
 				diverged = true
 				var x, y interface{}
 				_ = json.Unmarshal([]byte(a), &x)
 				_ = json.Unmarshal([]byte(b), &y)
-				res.Violate("c13:history:"+steps[i-1].Kind+"-then-"+s.Kind,
+				fp := "c13:history:" + steps[i-1].Kind + "-then-" + s.Kind
+				if firstDifferingRuleHasLookalike(sr.Spec.Rules, fr.Spec.Rules, fa, fb) {
+					fp = lookalikeFP
+				}
+				res.Violate(fp,
 					fmt.Sprintf("after [%s] the route differs from the route after [%s] alone on a fresh copy (first difference at %s; %d vs %d rules)", hist, stepSig(s), gen.FirstDiff("", x, y), len(sr.Spec.Rules), len(fr.Spec.Rules)),
 					sc.detail(gen.NF{"history": hist, "sequenceRules": json.RawMessage(js(sr.Spec.Rules)), "observedRules": json.RawMessage(js(fr.Spec.Rules))}))
 			}
